@@ -26,7 +26,7 @@ REQUIREMENTS FOR THE CHANGE
 - Everything in mysql_mimic/ is in scope, not only the anchored lines. Prefer a mechanism and a location that are NOT the most obvious ones for this property; be creative about where the property can be broken indirectly.
 - The existing test suite must still pass with the change: run
     cd {wt} && PYTHONPATH={wt} /venv/bin/python -m pytest -q -p no:cacheprovider -k 'not sqlalchemy' tests
-  before and after (takes ~10 s). On the unmodified checkout the summary is `12 failed, 336 passed, 89 deselected` (those 12 fail regardless, in this sandbox); with your change the very same 336 tests must still pass (compare the lists of failed tests; `-rf` prints them). Do not edit tests.
+  before and after (takes ~10 s; the tests bind the fixed port 3307, so run them inside a private network namespace to avoid collisions with other users of this machine: `unshare -rn sh -c "ip link set lo up; <pytest command>"`). On the unmodified checkout the summary is `12 failed, 336 passed, 89 deselected` (those 12 fail regardless, in this sandbox); with your change the very same 336 tests must still pass (compare the lists of failed tests; `-rf` prints them). Do not edit tests.
 - The demonstration: {out}/demo.py, a self-contained program (run as `PYTHONPATH=<checkout> /venv/bin/python demo.py`) that drives the REAL library code (in-process is best: e.g. construct MysqlServer / Connection with asyncio streams, or open a loopback socket to a server started in the same process; raw protocol bytes are fine) and exits 0 when the property holds on its scenario and exits non-zero (with a short message) when it is violated. It must exit 0 on the unmodified checkout and non-zero with your change applied. Keep it deterministic and under 60 s.
 
 DELIVERABLES in {out}/ :
